@@ -11,7 +11,8 @@ Off == atoi(IOEnv.VECOFF)
 
 VARIABLE st
 
-Chosen == {k \in 1..Len(Dl) : k % Mod = Off % Mod \/ SizeExt(FromGo(Defs[Dl[k]])) \in {1, 255}}
+Chosen == {k \in 1..Len(Dl) : k % Mod = Off % Mod \/ SizeExt(FromGo(Defs[Dl[k]])) \in {1, 255}
+                                \/ Defs[Dl[k]].id >= 65536}      \* ids that need the third id byte
 
 Init == st \in {[k |-> k, v |-> v] : k \in Chosen, v \in {1, 2}}
 Next == st' \in {}
